@@ -1125,11 +1125,80 @@ fn default_vector<C: Impl>(v: &Value, conc: &Conc, tables: &Tables) -> Outcome {
     Outcome::fail(json!({}), format!("no default for {tname}"))
 }
 
+fn select_laws<T: subtle::ConditionallySelectable + PartialEq>(a: &T, b: &T, ch: u8) -> Result<u64, String> {
+    use subtle::Choice;
+    if a == b {
+        return Err("harness: the two subjects of a selection are equal".into());
+    }
+    let want = if ch == 0 { a } else { b };
+    let got = T::conditional_select(a, b, Choice::from(ch));
+    if &got != want {
+        return Err(format!("conditional_select(a, b, {ch}) does not return {}", if ch == 0 { "a" } else { "b" }));
+    }
+    let mut x = *a;
+    x.conditional_assign(b, Choice::from(ch));
+    if &x != want {
+        return Err(format!("conditional_assign with choice {ch}: wrong value"));
+    }
+    let (mut p, mut q) = (*a, *b);
+    T::conditional_swap(&mut p, &mut q, Choice::from(ch));
+    if (ch == 0 && (&p != a || &q != b)) || (ch == 1 && (&p != b || &q != a)) {
+        return Err(format!("conditional_swap with choice {ch}: wrong values"));
+    }
+    if &T::conditional_select(a, a, Choice::from(ch)) != a {
+        return Err("conditional_select(a, a, _) is not a".into());
+    }
+    Ok(4)
+}
+
+fn select_vector<C: Impl>(v: &Value, conc: &Conc, tables: &Tables) -> Outcome {
+    let lib = Lib { conc, tables };
+    let tname = gets(v, "type");
+    let ch = geti(v, "choice") as u8;
+    let (ma, mb) = (
+        Mk { lib: &lib, variant: gets(v, "variant"), vclass: "generic", seed: conc.seed },
+        Mk { lib: &lib, variant: gets(v, "variant"), vclass: "generic", seed: conc.seed + 1 },
+    );
+    macro_rules! sel {
+        ($name:expr, $t:ty, $make:expr) => {
+            if tname == $name {
+                let f: fn(&Mk) -> $t = $make;
+                let (a, b) = (f(&ma), f(&mb));
+                return match catch_unwind(AssertUnwindSafe(|| select_laws(&a, &b, ch))) {
+                    Ok(Ok(n)) => {
+                        let mut o = Outcome::pass(json!({}));
+                        o.extra += n;
+                        o
+                    }
+                    Ok(Err(e)) => Outcome::fail(json!({"type": tname, "choice": ch}), format!("constant-time selection of {tname}: {e}")),
+                    Err(_) => Outcome::fail(json!({"type": tname, "choice": ch}), format!("constant-time selection of two {tname} values of one variant aborted (panic)")),
+                };
+            }
+        };
+    }
+    sel!("PublicKey", PublicKey<C>, |m: &Mk| PublicKey::<C>(m.pt_k::<C>()));
+    sel!("MultiPublicKey", MultiPublicKey<C>, |m: &Mk| MultiPublicKey::<C>(m.pt_k::<C>()));
+    sel!("ProofOfPossession", ProofOfPossession<C>, |m: &Mk| ProofOfPossession::<C>(m.pt_s::<C>()));
+    sel!("Signature", Signature<C>, |m: &Mk| wrap_sig::<C>(m.variant, m.pt_s::<C>()));
+    sel!("AggregateSignature", AggregateSignature<C>, |m: &Mk| match m.variant { "Basic" => AggregateSignature::<C>::Basic(m.pt_s::<C>()), "Aug" => AggregateSignature::MessageAugmentation(m.pt_s::<C>()), _ => AggregateSignature::ProofOfPossession(m.pt_s::<C>()) });
+    sel!("MultiSignature", MultiSignature<C>, |m: &Mk| match m.variant { "Basic" => MultiSignature::<C>::Basic(m.pt_s::<C>()), "Aug" => MultiSignature::MessageAugmentation(m.pt_s::<C>()), _ => MultiSignature::ProofOfPossession(m.pt_s::<C>()) });
+    sel!("ProofCommitment", ProofCommitment<C>, |m: &Mk| match m.variant { "Basic" => ProofCommitment::<C>::Basic(m.pt_s::<C>()), "Aug" => ProofCommitment::MessageAugmentation(m.pt_s::<C>()), _ => ProofCommitment::ProofOfPossession(m.pt_s::<C>()) });
+    sel!("ProofOfKnowledge", ProofOfKnowledge<C>, |m: &Mk| { let (u, v) = (m.pt_s::<C>(), m.pt_s::<C>().double()); match m.variant { "Basic" => ProofOfKnowledge::<C>::Basic { u, v }, "Aug" => ProofOfKnowledge::MessageAugmentation { u, v }, _ => ProofOfKnowledge::ProofOfPossession { u, v } } });
+    sel!("ProofOfKnowledgeTimestamp", ProofOfKnowledgeTimestamp<C>, |m: &Mk| { let (u, v) = (m.pt_s::<C>(), m.pt_s::<C>().double()); ProofOfKnowledgeTimestamp::<C> { proof: match m.variant { "Basic" => ProofOfKnowledge::Basic { u, v }, "Aug" => ProofOfKnowledge::MessageAugmentation { u, v }, _ => ProofOfKnowledge::ProofOfPossession { u, v } }, timestamp: 1_700_000_000_000 + m.seed } });
+    sel!("SignatureShare", SignatureShare<C>, |m: &Mk| { let mut b = vec![0u8, m.share_id()]; b.extend_from_slice(&enc_s::<C>(&m.pt_s::<C>())); let s = SignatureShare::<C>::try_from(b.as_slice()).expect("share container"); let raw = *s.as_raw_value(); match m.variant { "Basic" => SignatureShare::Basic(raw), "Aug" => SignatureShare::MessageAugmentation(raw), _ => SignatureShare::ProofOfPossession(raw) } });
+    sel!("PublicKeyShare", PublicKeyShare<C>, |m: &Mk| mk_pks::<C>(m));
+    sel!("ElGamalCiphertext", ElGamalCiphertext<C>, |m: &Mk| ElGamalCiphertext::<C> { c1: m.pt_k::<C>(), c2: m.pt_k::<C>().double() });
+    Outcome::fail(json!({}), format!("select: type {tname} is not selectable"))
+}
+
 pub fn run<C, R>(v: &Value, conc: &Conc, tables: &Tables, group: &str) -> Outcome
 where
     C: Impl,
     R: RefG,
 {
+    if gets(v, "act") == "Select" {
+        return select_vector::<C>(v, conc, tables);
+    }
     if gets(v, "act") == "IsZero" {
         return iszero_vector::<C>(v, conc);
     }
